@@ -112,9 +112,15 @@ var dict = []string{
 	"lock.RUnlock(uint(chunk))", // 68
 	"lock.Lock(uint(chunk))",    // 69
 	"lock.Unlock(uint(chunk))",  // 70
+	"column.Snapshot",           // 71  back-fill read of a chunk of the target column
+	"Grow",                      // 72
+	"cols.Range",                // 73
+	"cols.Store",                // 74  registry update (Collection) / publication of the registry slice (columns)
+	"copy",                      // 75
+	"make",                      // 76
 }
 
-const dictVersion = 4
+const dictVersion = 5
 
 type fnSpec struct {
 	file string
@@ -151,6 +157,11 @@ var fns = []fnSpec{
 	{"column_expire.go", "", "writeTTL"},
 	{"column_strings.go", "columnKey", "Apply"},
 	{"column_strings.go", "columnKey", "OffsetOf"},
+	{"collection.go", "Collection", "CreateIndex"},
+	{"collection.go", "Collection", "CreateSortIndex"},
+	{"txn.go", "Txn", "commitCapacity"},
+	{"collection.go", "columns", "Store"},
+	{"collection.go", "columns", "DeleteIndex"},
 }
 
 type tok struct{ depth, kind, name int }
